@@ -29,6 +29,16 @@ var guardTables = map[string]map[string]GuardSpec{
 }
 
 func init() {
+	guardTables["stream.Stream"] = map[string]GuardSpec{
+		"dataChan": {Lock: "dataChanMux"}, "sinks": {Lock: "sinksMux"}, "syncSinks": {Lock: "sinksMux"},
+	}
+	guardTables["cep.Engine"] = map[string]GuardSpec{
+		"partMap": {Lock: "mu"}, "lru": {Lock: "mu"}, "seq": {Lock: "mu"}, "started": {Lock: "startMu"}, "cancel": {Lock: "startMu"},
+	}
+	guardTables["functions.FunctionRegistry"] = map[string]GuardSpec{"functions": {Lock: "mu"}, "snapshot": {Lock: "mu"}}
+	guardTables["functions.ExprBridge"] = map[string]GuardSpec{
+		"exprEnv": {Lock: "mutex", ReadsUnguardedOK: "the field (a map reference) is assigned once at construction; unguarded loads only copy the reference into a FunctionContext"},
+	}
 	guardTables["stream.MemoryTableSource"] = map[string]GuardSpec{"index": {Lock: "mu"}}
 	guardTables["stream.tableStore"] = map[string]GuardSpec{"sources": {Lock: "mu"}}
 	guardTables["stream.analyticFieldEngine"] = map[string]GuardSpec{
